@@ -62,12 +62,18 @@ def make(n, kinds, orders="rev"):
         specs = graphs.sym_graph(g, n, kinds, orders=orders, par=False)
         layout = LAYOUTS[g.choose("layout", len(LAYOUTS))]
         decor = g.choose("decor", len(DECOR))
+        # two dependencies may carry the same task name in different packages
+        same = (len(set(layout[:n])) == n) and g.flag("same_names")
         for j, s in enumerate(specs):
             s.pkg = layout[j]
+            if same and j < n - 1:
+                s.name = "data"
             if s.kind in hrun.SUBPROCESS_KINDS:
                 a, o = DECOR[(decor + j) % len(DECOR)] if decor else (None, None)
                 s.args, s.options = a, o
                 s.run = "./tool.sh --mode fast"
+        if same and any(s_.kind == "combine" and len(set(specs[i].name for i in s_.dep_idx)) < len(s_.dep_idx) for s_ in specs):
+            return {"nontrivial": False, "sample": None}       # combine() forbids equally named dependencies (C15's subject)
         for s in specs:           # deps were rendered before packages were assigned
             s.deps = [(":%s" % specs[i].name) if specs[i].pkg == s.pkg else specs[i].ident for i in s.dep_idx]
         root = n - 1
@@ -91,7 +97,12 @@ def make(n, kinds, orders="rev"):
             graphs.crash_check(g, res, specs)
             D = graphs.describe(specs) + ["again=%s has_version=%s" % (again, sorted(has_version))]
             g.require(res.status == 0, "env:run-failed", "status=%r err=%r; %s" % (res.status, res.err[-200:], D))
-            sp = graphs.spawned_by_task(res, specs)
+            sp = {}
+            for p_ in res.kernel.tasks():
+                rel = os.path.relpath(p_.cwd, str(proj.root))
+                rel = "" if rel == "." else rel
+                j_ = [i for i, s_ in enumerate(specs) if s_.name == p_.name and s_.pkg == rel]
+                sp.setdefault(j_[0] if j_ else p_.name, []).append(p_)
             out_root = str(proj.out)
             nontrivial = False
 
@@ -144,6 +155,8 @@ def make(n, kinds, orders="rev"):
                 g.goal("dependent of a cached experiment")
             if any(specs[j].pkg != specs[i].pkg for j in sp for i in specs[j].dep_idx):
                 g.goal("dependency in another package")
+            if same and any(len(specs[j].dep_idx) >= 2 for j in sp if isinstance(j, int)):
+                g.goal("two dependencies with the same task name")
             return {"nontrivial": nontrivial,
                     "sample": {"tasks": D, "spawns": [{"task": p.name, "argv": p.snapshot["argv"][2], "cwd": p.snapshot["cwd"][-12:],
                                                        "COND_OUT": p.env.get("COND_OUT", "")[-30:], "COND_DEPS": p.env.get("COND_DEPS", "")[-60:]}
@@ -154,7 +167,8 @@ def make(n, kinds, orders="rev"):
 
 
 def spaces(tier):
-    goals = ["two dependents of one task both executed", "dependent of a cached experiment", "dependency in another package"]
+    goals = ["two dependents of one task both executed", "dependent of a cached experiment", "dependency in another package",
+             "two dependencies with the same task name"]
     sp = [Space("n3-layouts", make(3, graphs.ALL_KINDS),
                 "N<=3, every edge set, deps forward/reversed, 4 kinds, 3 package layouts (depth 0..2), cache bit per experiment, "
                 "--again, 3 args/options decorations", depth=8, goals=goals, outside=["N>4", "root path with ':'", "jobs>1"])]
